@@ -32,6 +32,7 @@ var bufWriteAPI = map[string][3]int{ // name -> arg index of database, measureme
 	"WriteColumnarDirect":            {2, 3, 4},
 	"WriteColumnarRecord":            {2, -1, 3},
 	"WriteColumnarDirectNoWAL":       {2, 3, 4},
+	"WriteRowsDirectNoWAL":           {2, 3, 4},
 	"WriteTypedColumnarDirect":       {2, 3, 4},
 	"WriteTypedColumnarDirectNoWAL":  {2, 3, 4},
 	"WriteColumnarRecordNoWAL":       {2, -1, 3},
@@ -883,29 +884,29 @@ func c32Each(c *Ctx) {
 			continue
 		}
 		okNilFacts := func(fs []fact) bool {
-		okNil := false
-		for _, f := range fs {
-			switch {
-			case f.Kind == factNil && isParam(fn, "rbacManager")(f.Val):
-				okNil = true
-			case f.Kind == factFalse:
-				if cl, ok := f.Val.(*ssa.Call); ok && cl.Call.IsInvoke() && cl.Call.Method.Name() == "IsRBACEnabled" {
+			okNil := false
+			for _, f := range fs {
+				switch {
+				case f.Kind == factNil && isParam(fn, "rbacManager")(f.Val):
 					okNil = true
+				case f.Kind == factFalse:
+					if cl, ok := f.Val.(*ssa.Call); ok && cl.Call.IsInvoke() && cl.Call.Method.Name() == "IsRBACEnabled" {
+						okNil = true
+					}
+					// loop exhausted: range/next ok == false or index < len false
+					if _, ok := f.Val.(*ssa.Extract); ok {
+						okNil = true
+					}
+				case f.Kind == factNil:
+					if cl, ok := f.Val.(*ssa.Call); ok && strings.HasSuffix(callName(cl), "auth.GetTokenInfo") {
+						okNil = true
+					}
+				case f.Kind == factCmp && (f.Op == token.GEQ || f.Op == token.LSS || f.Op == token.EQL):
+					// index loop exhausted / empty list
+					okNil = okNil || f.Op == token.GEQ
 				}
-				// loop exhausted: range/next ok == false or index < len false
-				if _, ok := f.Val.(*ssa.Extract); ok {
-					okNil = true
-				}
-			case f.Kind == factNil:
-				if cl, ok := f.Val.(*ssa.Call); ok && strings.HasSuffix(callName(cl), "auth.GetTokenInfo") {
-					okNil = true
-				}
-			case f.Kind == factCmp && (f.Op == token.GEQ || f.Op == token.LSS || f.Op == token.EQL):
-				// index loop exhausted / empty list
-				okNil = okNil || f.Op == token.GEQ
 			}
-		}
-		return okNil
+			return okNil
 		}
 		okNil := okNilFacts(factsAt(ret))
 		if !okNil && len(ret.Block().Preds) > 1 {
@@ -1091,7 +1092,9 @@ func isRecordContainer(t types.Type) bool {
 
 // ---------------------------------------------------------------- WALKEYS
 
-func c32WalKeys(c *Ctx) {
+func c32WalKeys(c *Ctx) { c32WalKeysAs(c, "C32.WALKEYS") }
+
+func c32WalKeysAs(c *Ctx, rule string) {
 	n := 0
 	for _, pk := range []string{"internal/ingest", "internal/wal", "internal/api", "internal/cluster"} {
 		for _, fn := range c.P.FuncsIn(pk) {
@@ -1137,12 +1140,12 @@ func c32WalKeys(c *Ctx) {
 							after = append(after, fmt.Sprintf("L%d", c.P.Line(mu.Pos())))
 						}
 					}
-					c.Check(len(after) == 0, "C32.WALKEYS", fmt.Sprintf("%s|%s", fn.Name(), key), ru.Pos(), "no client-named key is stored into the row after "+key, fmt.Sprintf("in %s a client-named column is stored into the WAL row (%s) after the routing key %s was set: a column called %s replaces it and replay stores the row wherever the column value says", fn.Name(), strings.Join(uniq(after), ","), key, key))
+					c.Check(len(after) == 0, rule, fmt.Sprintf("%s|%s", fn.Name(), key), ru.Pos(), "no client-named key is stored into the row after "+key, fmt.Sprintf("in %s a client-named column is stored into the WAL row (%s) after the routing key %s was set: a column called %s replaces it and replay stores the row wherever the column value says", fn.Name(), strings.Join(uniq(after), ","), key, key))
 				}
 			}
 		}
 	}
-	c.Floor("C32.WALKEYS", 4, "two row builders x two routing keys")
+	c.Floor(rule, 4, "two row builders x two routing keys")
 }
 
 // ---------------------------------------------------------------- REPLAY
@@ -1273,7 +1276,9 @@ func c32RouteSources(v ssa.Value) routeInfo {
 	return ri
 }
 
-func c32Replay(c *Ctx) {
+func c32Replay(c *Ctx) { c32ReplayAs(c, "C32.REPLAY") }
+
+func c32ReplayAs(c *Ctx, rule string) {
 	n := 0
 	for _, pk := range []string{"cmd/arc", "internal/cluster", "internal/wal", "internal/ingest", "internal/api"} {
 		for _, fn := range c.P.FuncsIn(pk) {
@@ -1331,16 +1336,16 @@ func c32Replay(c *Ctx) {
 					}
 					sort.Strings(miss)
 					if len(miss) == 0 {
-						c.OK("C32.REPLAY", construct, w.Call.Pos(), "rows are routed by their own routing keys / the envelope only")
+						c.OK(rule, construct, w.Call.Pos(), "rows are routed by their own routing keys / the envelope only")
 					} else {
-						c.Bad("C32.REPLAY", construct, w.Call.Pos(), "%s", strings.Join(miss, "; "))
+						c.Bad(rule, construct, w.Call.Pos(), "%s", strings.Join(miss, "; "))
 					}
 				}
 			}
 		}
 	}
 	if n < 3 {
-		c.Unk("C32.REPLAY", "consumers", 0, "found %d replayed writes, expected the recovery callback and the two paths of the replication ingest handler", n)
+		c.Unk(rule, "consumers", 0, "found %d replayed writes, expected the recovery callback and the two paths of the replication ingest handler", n)
 	}
 }
 
